@@ -337,8 +337,12 @@ def loop_carried_names(loop, store_ok=(), distinct_calls=()):
     """Names assigned in the loop body that may be read before they are (definitely) assigned in the same iteration, plus
     attribute/subscript stores: such a body is not a set of independent iterations."""
     assigned_anywhere = set()
+    comp_bound = set()  # ids of Name nodes bound by a comprehension: they live in the comprehension's own scope, nothing is carried through them
     for n in ast.walk(ast.Module(body=loop.body, type_ignores=[])):
-        if isinstance(n, ast.Name) and isinstance(n.ctx, ast.Store):
+        if isinstance(n, ast.comprehension):
+            comp_bound.update(id(t) for t in ast.walk(n.target) if isinstance(t, ast.Name))
+    for n in ast.walk(ast.Module(body=loop.body, type_ignores=[])):
+        if isinstance(n, ast.Name) and isinstance(n.ctx, ast.Store) and id(n) not in comp_bound:
             assigned_anywhere.add(n.id)
     targets = {n.id for n in ast.walk(loop.target) if isinstance(n, ast.Name)}
     carried = set()
@@ -746,15 +750,24 @@ def py_float(I, x=0.0):
 
 
 def py_int(I, x=0):
-    if isinstance(x, (int, str, float)):
+    if isinstance(x, (int, str, float, Fraction)):
         return int(x)
+    if isinstance(x, Num) and x.is_const():
+        return int(x.const_value())  # truncation towards zero, as CPython
     if isinstance(x, Num) and x.sort() == "Int":
         return x
+    if isinstance(x, (bool, SBool)):
+        return I.to_num(x)
     raise Unsupported("int() of a symbolic real")
 
 
 def py_round(I, x, nd=None):
-    return x
+    if isinstance(x, Num) and x.is_const():
+        x = x.const_value()
+    if isinstance(x, (int, float, Fraction)) and (nd is None or isinstance(nd, int)):
+        return round(x) if nd is None else round(x, nd)  # Fraction / int / float: CPython's own rounding (half to even)
+    # a symbolic argument: the rounded value is an opaque number (only printing uses it in the code under contract), never the argument itself
+    return alg.raw_app("py_round", I.to_num(x), I.to_num(0 if nd is None else nd), sort="Real" if nd is not None else "Int")
 
 
 def py_hash(I, x):
@@ -1057,7 +1070,7 @@ BUILTINS = {n: PyBuiltin(n, f) for n, f in {
     "round": py_round, "hash": py_hash, "print": py_print, "sorted": py_sorted, "any": py_any, "all": py_all,
     "tuple": lambda I, x=(): tuple(I.iterate(x)), "dict": lambda I, x=None, **k: (x.m_copy(I) if isinstance(x, Model) and hasattr(x, "m_copy") and not k else dict(x or {}, **k)),
     "set": lambda I, x=(): _mkset(I, x, frozen=False), "frozenset": lambda I, x=(): _mkset(I, x),
-    "str": lambda I, x="": x if isinstance(x, str) else "<str>", "reversed": lambda I, x: py_reversed(I, x),
+    "str": lambda I, x="": py_str(I, x), "reversed": lambda I, x: py_reversed(I, x),
     "map": lambda I, f, *xs: (xs[0].map(I, "map(%s)" % xs[0].key, lambda v: I.call(f, [v], {})) if len(xs) == 1 and isinstance(xs[0], SymSeq)
                               else [I.call(f, list(a), {}) for a in zip(*[I.iterate(x) for x in xs])]),
     "id": lambda I, x: id(x), "bool": lambda I, x=False: I.truth(x), "repr": lambda I, x: "<repr>",
@@ -1071,8 +1084,7 @@ def _mkset(I, x, frozen=True):
     items = I.iterate(x)
     res = []
     for v in items:
-        if not any(I.equal(v, w) is True for w in res):
-            res.append(v)
+        I.set_insert(res, v)  # an element that may equal an earlier one forks the path
     if any(isinstance(v, (Num, Obj, Model)) for v in res):
         return SetVal(res)
     try:
@@ -1127,6 +1139,58 @@ class StrExpr(Model):
         return "StrExpr%r" % (self.term,)
 
 
+class OpaqueStr(Model):
+    """a string built from values the engine does not know concretely (and the contract did not ask for structured strings): it can be passed on,
+    concatenated and printed, but nothing may depend on its content - comparing it, using it as a key or taking its length is refused"""
+
+    def __init__(self, why=""):
+        self.why = why
+
+    def binop(self, I, op, other, swapped):
+        if not isinstance(op, ast.Add):
+            raise Unsupported("operation on a string of unknown content")
+        return OpaqueStr("concat")
+
+    def eq(self, I, other):
+        if other is self:
+            return True
+        raise Unsupported("comparison of a string built from symbolic values (%s); the contract must ask for structured strings" % self.why)
+
+    def truth(self, I):
+        raise Unsupported("truth value of a string built from symbolic values")
+
+    def m___len__(self, I):
+        raise Unsupported("length of a string built from symbolic values")
+
+    def __repr__(self):
+        return "<opaque str %s>" % self.why
+
+
+def concrete_text(v):
+    """(True, python value) when v is a value whose str()/format() CPython result the engine knows exactly"""
+    if isinstance(v, bool) or v is None or isinstance(v, (str, int)):
+        return True, v
+    if isinstance(v, Num) and v.is_const():
+        c = v.const_value()
+        return (True, int(c)) if c.denominator == 1 and v.sort() == "Int" else (False, None)  # exact rationals stand for floats: their repr is not reproduced
+    if isinstance(v, (tuple, list)):
+        parts = [concrete_text(x) for x in v]
+        if all(ok for ok, _ in parts):
+            return True, type(v)(x for _, x in parts)
+    return False, None
+
+
+def py_str(I, x=""):
+    if isinstance(x, (str, StrExpr, OpaqueStr)):
+        return x
+    ok, v = concrete_text(x)
+    if ok:
+        return str(v)
+    if getattr(I.registry, "structured_strings", False):
+        return StrExpr(("str", x))
+    return OpaqueStr("str() of a symbolic value")
+
+
 def _term_eq(a, b):
     if isinstance(a, StrExpr) and isinstance(b, StrExpr):
         return _term_eq(a.term, b.term)
@@ -1150,7 +1214,27 @@ def py_getattr(I, obj, name, node=None):
             if name == "format":
                 return PyBuiltin("str.format", lambda I_, *a, **k: StrExpr(("format", obj, tuple(a), tuple(sorted(k.items(), key=lambda kv: kv[0])))))
             return PyBuiltin("str.join", lambda I_, parts: StrExpr(("join", obj, parts)))
-        return PyBuiltin("str." + name, lambda I_, *a, **k: "<str>" if name in ("format", "join") else getattr(obj, name)(*a, **k))
+        if name == "format":
+            def fmt(I_, *a, **k):
+                ca = [concrete_text(x) for x in a]
+                ck = {kk: concrete_text(x) for kk, x in k.items()}
+                if all(ok for ok, _ in ca) and all(ok for ok, _ in ck.values()):
+                    return obj.format(*[v for _, v in ca], **{kk: v for kk, (_, v) in ck.items()})
+                return OpaqueStr("format() of symbolic values")
+
+            return PyBuiltin("str.format", fmt)
+        if name == "join":
+            def join(I_, parts):
+                try:
+                    ps = list(I_.iterate(parts))
+                except Unsupported:
+                    return OpaqueStr("join() over a collaborator's sequence")
+                if all(isinstance(x, str) for x in ps):
+                    return obj.join(ps)
+                return OpaqueStr("join() of strings of unknown content")
+
+            return PyBuiltin("str.join", join)
+        return PyBuiltin("str." + name, lambda I_, *a, **k: getattr(obj, name)(*a, **k))
     if isinstance(obj, (set, frozenset, SetVal)):
         return PyBuiltin("set." + name, _set_method(obj, name))
     if isinstance(obj, Num):
@@ -1201,22 +1285,54 @@ def _list_method(lst, name):
             e = I.equal(v, x)
             if e is True or (e is not False and I.P.branch(e)):
                 return k
+        I.P.vcs.append(VC("list-index-present[%s]" % I.site(None), "refuted", "list.index(x): x not in list"))
         raise PyRaise("ValueError: not in list")
 
     def insert(I, k, x):
+        _guard(I)
+        if isinstance(k, Num) and k.is_const():
+            k = int(k.const_value())
+        if not isinstance(k, int):
+            raise Unsupported("list.insert at a symbolic position")
         lst.insert(k, x)
 
-    def sort(I, **kw):
-        lst.sort(**kw)
+    def _plain(v):
+        if isinstance(v, Num) and v.is_const():
+            return v.const_value()
+        if isinstance(v, (bool, int, float, Fraction, str)):
+            return v
+        if isinstance(v, tuple):
+            return tuple(_plain(x) for x in v)
+        raise Unsupported("list.sort() over values whose order is not known concretely")
+
+    def sort(I, key=None, reverse=False):
+        _guard(I)
+        if key is not None:
+            raise Unsupported("list.sort(key=...)")
+        order = sorted(range(len(lst)), key=lambda i: _plain(lst[i]), reverse=bool(reverse))  # stable, like CPython
+        lst[:] = [lst[i] for i in order]
 
     def count(I, x):
-        return sum(1 for v in lst if I.equal(v, x) is True)
+        n = 0
+        for v in lst:
+            e = I.equal(v, x)
+            if e is True or (e is not False and I.P.branch(e)):
+                n += 1
+        return n
 
     def reverse(I):
+        _guard(I)
         lst.reverse()
 
-    return {"append": append, "extend": extend, "pop": pop, "copy": copy, "remove": remove, "index": index,
-            "insert": insert, "sort": sort, "count": count, "reverse": reverse}[name]
+    def clear(I):
+        _guard(I)
+        del lst[:]
+
+    table = {"append": append, "extend": extend, "pop": pop, "copy": copy, "remove": remove, "index": index,
+             "insert": insert, "sort": sort, "count": count, "reverse": reverse, "clear": clear}
+    if name not in table:
+        raise Unsupported("list.%s" % name)
+    return table[name]
 
 
 def _dict_method(d, name):
@@ -1249,6 +1365,7 @@ def _dict_method(d, name):
                 return d.pop(kk)
         if default:
             return default[0]
+        I.P.vcs.append(VC("key-present[%s]" % I.site(None), "refuted", "dict.pop of a missing key without default"))
         raise PyRaise("KeyError")
 
     def setdefault(I, k, v=None):
@@ -1257,8 +1374,14 @@ def _dict_method(d, name):
         d[k] = v
         return v
 
-    return {"items": items, "keys": keys, "values": values, "get": get, "copy": copy, "update": update, "pop": pop,
-            "setdefault": setdefault}[name]
+    def clear(I):
+        d.clear()
+
+    table = {"items": items, "keys": keys, "values": values, "get": get, "copy": copy, "update": update, "pop": pop,
+             "setdefault": setdefault, "clear": clear}
+    if name not in table:
+        raise Unsupported("dict.%s" % name)
+    return table[name]
 
 
 def _set_method(s, name):
@@ -1282,14 +1405,21 @@ def _set_method(s, name):
     def add(I, x):
         no_heap_mutation_in_summary(I, "a set")
         if isinstance(s, SetVal):
-            if not any(I.equal(x, w) is True for w in s.items):
-                s.items.append(x)
+            I.set_insert(s.items, x)
+        elif isinstance(x, (Num, SBool)) and not (isinstance(x, Num) and x.is_const()):
+            raise Unsupported("a symbolic value added to a concrete set")
         else:
             s.add(x)
 
     def discard(I, x):
         if isinstance(s, SetVal):
-            s.items[:] = [w for w in s.items if I.equal(x, w) is not True]
+            keep = []
+            for w in s.items:
+                e = I.equal(x, w)
+                if e is True or (e is not False and I.P.branch(e)):
+                    continue  # removed (the items are pairwise different, but each may-equal item is decided on its own branch)
+                keep.append(w)
+            s.items[:] = keep
         else:
             s.discard(x)
 
@@ -1297,7 +1427,10 @@ def _set_method(s, name):
         for x in I.iterate(other):
             add(I, x)
 
-    return {"copy": copy, "isdisjoint": isdisjoint, "issuperset": issuperset, "add": add, "discard": discard, "update": update}[name]
+    table = {"copy": copy, "isdisjoint": isdisjoint, "issuperset": issuperset, "add": add, "discard": discard, "update": update}
+    if name not in table:
+        raise Unsupported("set.%s" % name)
+    return table[name]
 
 
 # ----------------------------------------------------------------------------------------------------------- 2-D arrays
